@@ -260,9 +260,10 @@ class QuarterSplineDisk(SplineRound):
 class HalfSplineDisk(QuarterSplineDisk):
     """Sketch for Half oval, elliptical and circular shapes"""
 
+    # indexes refer to operations in grid order (2 core faces first, then 4 shell faces)
     chops: ClassVar = [
-        [1],  # axis 0
-        [1, 2, 5],  # axis 1
+        [2],  # axis 0
+        [2, 3, 5],  # axis 1
     ]
 
     def __init__(
@@ -296,7 +297,8 @@ class HalfSplineDisk(QuarterSplineDisk):
     @property
     def grid(self) -> List[List[Face]]:
         if len(self.faces) > 3:
-            return [self.faces[:2], self.faces[2:]]
+            # the merged faces come quarter by quarter: core, shell, shell, core, shell, shell
+            return [self.faces[::3], [face for i, face in enumerate(self.faces) if not i % 3 == 0]]
         else:
             return super().grid
 
